@@ -78,6 +78,8 @@ MODEL_TEXTS = {
     "nog2": HEAD + "p = sub, obj, act\np2 = sub, act\n" + TAIL,
     "rbac": HEAD + "p = sub, obj, act\n[role_definition]\ng = _, _\n" + TAIL_G,
     "dom": HEAD + "p = sub, obj, act\n[role_definition]\ng = _, _, _\n" + TAIL_DOM,
+    # the FIRST policy type has a priority field (the enforcer sorts it on load), the others have none and keep their order
+    "priomulti": HEAD + "p = priority, sub, act\np2 = sub, act\np3 = sub, obj, act\n[role_definition]\ng = _, _\n" + TAIL_G,
 }
 
 
